@@ -50,6 +50,8 @@ func (o cOp) String() string {
 		return fmt.Sprintf("mount(blob %d from %s)", o.N, o.Tag)
 	case "freshPut":
 		return fmt.Sprintf("freshPut(fresh%d,%s,F%d)", o.N, o.Tag, o.Man)
+	case "freshBurst":
+		return fmt.Sprintf("freshBurst(%d)", o.N)
 	}
 	return o.Kind
 }
@@ -191,6 +193,11 @@ func (u *cUniverse) execOp(srv *olareg.Server, o cOp) (int, string, string) {
 			// fell back to an upload session: finish it
 			r = doReq(srv, "PUT", r.hdr.Get("Location")+"&digest="+url.QueryEscape(dig("sha256", b)), b, nil)
 		}
+	case "freshBurst":
+		// first touches of twelve repositories nobody has used: each one creates and publishes a repository object
+		for i := 0; i < 12; i++ {
+			r = doReq(srv, "GET", fmt.Sprintf("/v2/fb%dx%d/tags/list", o.N, i), nil, nil)
+		}
 	case "freshPut":
 		// first index write to a repository nobody has touched yet: a manifest that needs no blobs, by tag
 		body := freshBody(o.Man)
@@ -282,6 +289,8 @@ func genCProgram(t *rapid.T, kinds []string, maxClients, maxOps int) cProgram {
 			case "mount":
 				o.N = rapid.IntRange(0, 7).Draw(t, "blob")
 				o.Tag = rapid.SampledFrom([]string{"self", "self", "fresh0", "fresh1", "nosuchrepo"}).Draw(t, "from")
+			case "freshBurst":
+				o.N = rapid.IntRange(0, 3).Draw(t, "burst")
 			case "freshPut":
 				o.N = rapid.IntRange(0, 1).Draw(t, "freshRepo")
 				o.Tag = rapid.SampledFrom(freshTags).Draw(t, "tag")
